@@ -1042,6 +1042,15 @@ func (e *Env) callExpr(ex *ast.CallExpr) (SVal, error) {
 		r.Len = plus(sv.Len, "1")
 		r.Loc = "spec:" + r.Loc
 		return r, nil
+	case "atend":
+		// atend(x): the loop variable x as it is when the current loop iteration ends (iteration clauses only)
+		if id, ok := ex.Args[0].(*ast.Ident); ok && len(ex.Args) == 1 {
+			if v, ok := e.St.NamedV["atend:"+id.Name]; ok {
+				return v, nil
+			}
+			return SVal{}, fmt.Errorf("unknown identifier %s (a loop variable named by atend)", id.Name)
+		}
+		return SVal{}, fmt.Errorf("atend(variable)")
 	case "atiter":
 		// atiter(x): the cell x as it was when the current loop iteration started
 		if id, ok := ex.Args[0].(*ast.Ident); ok && len(ex.Args) == 1 {
